@@ -23,6 +23,10 @@ Hessians, molecule-attached vectors and their nuclear derivatives; 3x3 blocking 
   Coupling strengths are spread over the decades 1, 1e-3, 1e-6, 1e-9, 1e-12 (per case) and gradient, Hessian, vector and
   vector derivatives are judged with a RELATIVE tolerance (1e-9 of the largest entry; the transforms are linear in what they
   are given, the unchanged code stays below 1e-13): an absolute threshold inside a transform is seen on the weak fields.
+  Stream "oracle-forms": every align_* method is handed its argument as an ndarray, as nested lists, as nested tuples and as a
+  list of per-row arrays; align_atoms gets per-atom arrays of rank 1, 2 and 3 (float / int / str).  The ndarray must be transformed
+  as stated (row k of an aligned per-atom array is row atommap[k]); a plain sequence may be refused (any exception) but, if it is
+  accepted, must give the answer for the array it spells; no argument may be modified.
 """
 import math
 from fractions import Fraction
@@ -700,6 +704,123 @@ def run_oracle(case):
         return "implementation raised %s on a well-formed recipe: %s" % (type(e).__name__, e), {}
 
 
+# ---------------------------------------------------------------------------------------------
+# argument forms: what a caller may hand to the align_* methods besides a 2-d float ndarray
+
+FORMS = ["array", "list", "tuple", "rows"]      # ndarray / nested lists (.tolist()) / nested tuples / list of per-row ndarrays
+ATOM_TAILS = [[], [3], [2], [2, 3], [1]]        # per-atom arrays: one scalar, one row, one (2,3) block per atom
+
+
+def _totuple(v):
+    return tuple(_totuple(t) for t in v) if isinstance(v, list) else v
+
+
+def as_form(a, form):
+    a = np.asarray(a)
+    if form == "array":
+        return np.array(a, copy=True)
+    if form == "list":
+        return a.tolist()
+    if form == "tuple":
+        return _totuple(a.tolist())
+    return [np.array(r, copy=True) for r in a]          # "rows" (of a 1-d array: a list of numpy scalars)
+
+
+def gen_forms_case(rng):
+    n = rng.choice([1, 2, 3, 3, 4, 5, 6, 8])
+    rot = rand_rotation(rng) if rng.random() < 0.8 else np.array([[float(t) for t in row] for row in quat_to_rot_fr(rng.choice(cube_quaternions()))])
+    u = lambda *shape: np.array([rng.uniform(-9, 9) for _ in range(int(np.prod(shape)))]).reshape(shape).tolist()
+    atoms = []
+    for tail in ATOM_TAILS:
+        dt = rng.choice(["float", "int", "str"])
+        size = n * int(np.prod(tail)) if tail else n
+        if dt == "float":
+            flat = [rng.uniform(-9, 9) for _ in range(size)]
+        elif dt == "int":
+            flat = [rng.randint(-5, 120) for _ in range(size)]
+        else:
+            flat = ["%s%d" % (rng.choice("ABCDEFGH"), k) for k in range(size)]
+        atoms.append({"dtype": dt, "values": np.array(flat).reshape([n] + tail).tolist()})
+    return {"kind": "forms",
+            "mill": {"shift": [rng.uniform(-10, 10) for _ in range(3)], "rotation": rot.tolist(), "atommap": rand_perm(rng, n), "mirror": rng.random() < 0.4},
+            "x": rand_geometry(rng, n).tolist(), "g": u(n, 3), "H": u(3 * n, 3 * n), "mu": u(3), "J": u(3, 3 * n), "atoms": atoms}
+
+
+def forms_oracle(case, hit=None):
+    """Every align_* method with its argument spelled as an ndarray, as nested lists, as nested tuples and as a list of per-row
+    arrays.  The ndarray must be transformed as the recipe states (per-atom arrays of any rank: row k of the result is row
+    atommap[k] of the input).  A plain sequence may be REFUSED (any exception) - but if it is accepted the answer must be the
+    answer for the array it spells: a wrong answer for an accepted input is never acceptable.  No form may be modified."""
+    import copy
+    md = case["mill"]
+    m = mk_mill(md)
+    p = list(md["atommap"])
+    n = len(p)
+    R = np.array(md["rotation"], dtype=float)
+    S = np.array([1.0, -1.0 if md["mirror"] else 1.0, 1.0])
+    x, g, H, mu, J = (np.array(case[k], dtype=float) for k in ("x", "g", "H", "mu", "J"))
+    B = (H.reshape(n, 3, n, 3).transpose(0, 2, 1, 3)) * S[None, None, :, None] * S[None, None, None, :]
+    Href = np.zeros((3 * n, 3 * n))
+    Jref = np.zeros((3, 3 * n))
+    for i in range(n):
+        Jref[:, 3 * i:3 * i + 3] = R.T @ J[:, 3 * p[i]:3 * p[i] + 3] @ R
+        for j in range(n):
+            Href[3 * i:3 * i + 3, 3 * j:3 * j + 3] = R.T @ B[p[i], p[j]] @ R
+    jobs = [("align_coordinates", m.align_coordinates, x, ((x * S) - np.array(md["shift"])) @ R, False),
+            ("align_gradient", m.align_gradient, g, ((g * S) @ R)[p], False),
+            ("align_hessian", m.align_hessian, H, Href, False)]
+    jobs[0] = jobs[0][:3] + (jobs[0][3][p], False)
+    if not md["mirror"]:
+        jobs += [("align_vector", m.align_vector, mu, mu @ R, False), ("align_vector_gradient", m.align_vector_gradient, J, Jref, False)]
+    for a in case["atoms"]:
+        arr = np.array(a["values"])
+        jobs.append(("align_atoms", m.align_atoms, arr, arr[p], True))
+    try:
+        for name, f, arr, ref, exact in jobs:
+            for form in FORMS:
+                arg = as_form(arr, form)
+                keep = copy.deepcopy(arg)
+                what = "%s(%s of shape %s)" % (name, {"array": "ndarray", "list": "nested lists", "tuple": "nested tuples", "rows": "list of per-row arrays"}[form],
+                                               list(arr.shape))
+                try:
+                    res = f(arg)
+                except Exception as e:
+                    if form == "array":
+                        raise Bad(what + " raised %s on a well-formed array: %s" % (type(e).__name__, e), {"method": name, "form": form})
+                    if hit:
+                        hit("forms_%s_%s_refused" % (name, form))
+                    continue
+                if hit:
+                    hit("forms_%s_%s_accepted" % (name, form))
+                try:
+                    got = np.asarray(res)
+                    ok = got.shape == ref.shape and (np.array_equal(got, ref) if exact else close(got, ref))
+                except Exception:
+                    got, ok = None, False
+                if not ok:
+                    tell = ("per-atom array is not permuted row-wise by atommap (row k of the result must be row atommap[k] of the input)" if name == "align_atoms"
+                            else "result is not the covariantly transformed quantity")
+                    raise Bad(what + ": " + tell + ("" if form == "array" else " - a plain sequence may be refused, but an accepted one must give the answer for the array it spells"),
+                              {"method": name, "form": form, "got": got.tolist() if got is not None and got.dtype != object else repr(res)[:300],
+                               "expected": ref.tolist()})
+                try:
+                    same = np.array_equal(np.asarray(arg), np.asarray(keep))
+                except Exception:
+                    same = False
+                if not same:
+                    raise Bad(what + " modified the argument it was given", {"method": name, "form": form})
+    except Bad as b:
+        return b.what, b.observed
+    return None
+
+
+def run_forms(case, hit=None):
+    try:
+        return forms_oracle(case, hit)
+    except Exception as e:
+        return "argument-forms check could not be evaluated: %s: %s" % (type(e).__name__, e), {}
+
+
 CORPUS_ORACLE = [
     # the recipe of finding C13-hessian-mirror (fixed in 88ca1d6): mirror + swap + quarter turn
     {"mill": {"shift": [1.0, 2.0, 3.0], "rotation": [[0.0, -1.0, 0.0], [1.0, 0.0, 0.0], [0.0, 0.0, 1.0]], "atommap": [1, 0], "mirror": True},
@@ -720,7 +841,8 @@ def correspond(ctx):
     corr.rule = ("model-vs-implementation cases: the nine operations x (cube-group rotations with dyadic data, exact) / "
                  "(integer-quaternion rotations, 1e-10) x permutations of 1-10 atoms x mirror on/off, ~12% ill-formed atom maps; "
                  "oracle cases: analytic energies/vector fields at random geometries under random recipes, four transformations per case "
-                 "retained and then judged; a case is "
+                 "retained and then judged; argument forms (ndarray / nested lists / nested tuples / list of rows, per-atom arrays of rank 1-3) "
+                 "into every align_* method: refusal or the covariant answer; a case is "
                  "non-trivial if the recipe is not the identity (rotation != I or shift != 0 or atommap not sorted or mirror); "
                  "distinct = distinct inputs")
     n_model = 16000 if ctx.thorough else 1260
@@ -801,6 +923,14 @@ def correspond(ctx):
         if "oracle" in case:
             corr.failures.append({"stream": "oracle-blockwise", "case": {k2: case[k2] for k2 in case if k2 not in ("impl", "oracle")},
                                   "what": case["oracle"][0], "observed": case["oracle"][1]})
+    # argument forms (ndarray / nested lists / nested tuples / list of rows) into every align_* method; per-atom arrays of rank 1-3
+    for k in range(3000 if ctx.thorough else 300):
+        fc = gen_forms_case(rng)
+        badf = run_forms(fc, corr.hit)
+        corr.count("oracle-forms")
+        corr.nontriv(fc)
+        if badf:
+            corr.failures.append({"stream": "oracle-forms", "case": fc, "what": badf[0], "observed": badf[1]})
     badb, errb = coqrun.eval_bad_indices("C13bw", REQB, "", "check_bcase", bterms, shard=75 if not ctx.thorough else 150, ty="bcase")
     if errb:
         still = []
@@ -887,6 +1017,9 @@ def replay(ctx, rp):
         except Exception as e:
             return {"case": {"kind": case["kind"], "exact": case["exact"]}, "observed": "%s: %s" % (type(e).__name__, e), "fails": True}
         return {"case": {"kind": case["kind"], "exact": case["exact"]}, "observed": "no exception", "fails": False}
+    if isinstance(case, dict) and case.get("kind") == "forms":
+        bad = run_forms(case)
+        return {"case": case, "oracle": bad[0] if bad else None, "observed": bad[1] if bad else None, "fails": bool(bad)}
     if not isinstance(case, dict) or "mill" not in case or "c" not in case:
         return {"note": "this replay records broken proof obligations / a model disagreement without a failing input of the "
                         "property; re-run ./check C13", "fails": True}
@@ -929,7 +1062,9 @@ LEVEL_TEXT = (
     "returned and judged only after all calls (a result overwritten by a later call is seen), arguments in C/Fortran/strided "
     "layout, caller's buffers overwritten after the call in half of the cases, coupling strengths over the decades 1 ... 1e-12 "
     "judged with a relative tolerance (1e-9 of the largest entry of gradient / Hessian / vector / vector derivatives), and a "
-    "check that no method modifies the array it is given.")
+    "check that no method modifies the array it is given; every align_* method is also handed its argument as nested lists, nested "
+    "tuples and a list of per-row arrays (a plain sequence is either refused or transformed like the array it spells) and "
+    "align_atoms per-atom arrays of rank 1, 2 and 3 (row k of the result = row atommap[k]).")
 LEVEL_NOTE = (
     "Clause map: invariant-energy gradient/Hessian covariance -> C13_invariant_energy_gradient_covariant/_hessian_covariant (+ "
     "coords_affine, gradient_is_L, hessian_is_LHLt, L_orthogonal, line_transport); per-atom arrays -> C13_atoms_same_map; vectors "
